@@ -5,7 +5,7 @@ PROP = dict(
     stages=[
         dict(name="c07_canvas", src="harness/c07_canvas.cc", flags=["-fwrapv"],
              deps=["harness/c07/model.hh", "harness/c07/ops.hh", "harness/c07/interp.hh"],
-             shards_quick=8, shards_thorough=16, timeout_quick=400, timeout_thorough=1800),
+             shards_quick=8, shards_thorough=16, timeout_quick=600, timeout_thorough=3600),
     ],
     rule=("A case is one canvas operation (or a history of up to 25) with its complete arguments, the geometry/format of both canvases and the "
           "content seed. Exhaustive part: every canvas 0..4 (quick) / 0..8 (thorough) per side with every coordinate in [-2,size+2] / [-3,size+3]: "
